@@ -18,6 +18,11 @@ def main():
     except core.MachineryError as e:
         print('MACHINERY: ' + str(e), file=sys.stderr)
         rc = 2
+    except Exception:  # noqa: BLE001 - an unexpected crash of the machinery is never reported as a violation
+        import traceback
+        traceback.print_exc()
+        print('MACHINERY: unexpected exception in the harness', file=sys.stderr)
+        rc = 2
     sys.exit(rc)
 
 
